@@ -129,6 +129,29 @@ def size_case(run, m):
     if isinstance(rsp, ExceptionResponse):
         run.violation('sizes-exception:fc%d' % m['fc'], case, 'in-range request answered with exception %r' % rsp.exception_code)
         return False
+    # the same request obtained the other ways: decoded from its PDU (a gateway forwarding it), and an object constructed for
+    # another quantity whose quantity attribute was then changed - the prediction belongs to the request as it is now
+    try:
+        from pymodbus.factory import ServerDecoder
+        multiword = m['fc'] == 8 and len(m.get('data', [])) != 1          # (recorded: the server decoder cannot decode these)
+        via_decode = predicted if multiword else ServerDecoder().decode(S.encode(m)).get_response_pdu_size()
+        run.count('size_comparisons')
+        if via_decode != predicted:
+            run.violation('pdu-size-decoded-request:fc%d' % m['fc'], case, 'constructed request predicts %d, the same request decoded from its PDU predicts %d' % (predicted, via_decode))
+            return False
+        attr = {1: 'count', 2: 'count', 3: 'count', 4: 'count', 23: 'read_count'}.get(m['fc'])
+        if attr:
+            o = A.build(dict(m, **{attr: 1 + (m[attr] % 7)}))
+            o.get_response_pdu_size()
+            setattr(o, attr, m[attr])
+            run.count('size_comparisons')
+            if o.get_response_pdu_size() != predicted:
+                run.violation('pdu-size-changed-request:fc%d' % m['fc'], case, 'request built for %s=%d and then set to %d predicts %d, a fresh one %d'
+                              % (attr, 1 + (m[attr] % 7), m[attr], o.get_response_pdu_size(), predicted))
+                return False
+    except Exception as e:  # noqa
+        run.violation('sizes-raised:fc%d' % m['fc'], case, 'prediction of the decoded / modified request raised %r' % (e,))
+        return False
     pdu = bytes([rsp.function_code]) + rsp.encode()
     ok = True
     run.count('size_comparisons')
